@@ -69,6 +69,8 @@ type Obs struct {
 	// a history: the observations of the later requests (Case.Then) served by the same process after this one, in order;
 	// the history stops at the first request that is not answered
 	Steps   []*Obs `json:"steps,omitempty"`
+	// number of elements of the answer's "data" array (requests with expect_items only; -1 = the body is not such a document)
+	Items   *int   `json:"items,omitempty"`
 	WsMsgs  int    `json:"ws_msgs,omitempty"`
 	WsEmpty int    `json:"ws_empty,omitempty"`
 	WsEnd   string `json:"ws_end,omitempty"`
@@ -97,6 +99,9 @@ type Case struct {
 	// production: max_open_connection). With 1, a request that asks for a second connection while it still holds an open
 	// result set waits in database/sql.(*DB).conn for ever
 	MaxConns int `json:"max_conns,omitempty"`
+	// series endpoints over scripted label documents: how many series the answer must hold (the complete documents among the
+	// rows); nil = not judged
+	ExpectItems *int `json:"expect_items,omitempty"`
 	// a history: requests served by the same process after this one, in this order (each with its own script)
 	Then       []*Case         `json:"then,omitempty"`
 	Boot       Boot            `json:"boot"`           // faults of dbVersion's two bootstrap statements
@@ -588,6 +593,15 @@ func finishCase(c *Case, obs *Obs, rec *httptest.ResponseRecorder, cancel contex
 	}
 	var js interface{}
 	obs.JSONOk = json.Unmarshal(rec.Body.Bytes(), &js) == nil
+	if c.ExpectItems != nil {
+		k := -1
+		if doc, ok := js.(map[string]interface{}); ok && obs.JSONOk {
+			if arr, ok := doc["data"].([]interface{}); ok {
+				k = len(arr)
+			}
+		}
+		obs.Items = &k
+	}
 	obs.Queries = atomic.LoadInt64(&queriesSeen) - q0
 	obs.Stmts = atomic.LoadInt64(&stmtsSeen) - stmts0
 	defer func() { obs.Rebuilds = atomic.LoadInt64(&poolRebuilds) - rebuilds0 }()
